@@ -1,7 +1,7 @@
 (* C03 — the state root of every height commits exactly to contract storage.
    Statements only; every proof is [exact lemma].
 
-   The trie is ABSTRACT here (Section Interface of StateRoot/Proofs.v): the theorems quantify over any
+   Two layers.  (1) ABSTRACT (Section Interface of StateRoot/Proofs.v): the theorems quantify over any
    [trie, content, apply_batch, root, get_proof, verify_proof] satisfying the hypotheses named in each statement, which
    are the theorems of the concrete trie model of C10 (coq/Trie):
      batch_content   : PutBatch of a sorted duplicate-free batch changes the content as the batch says   (C10 batch_content)
@@ -11,7 +11,7 @@
    write wins) through the Go map of the block's private cache, enumerated in ANY order, to the batch MapToMPTBatch
    builds (prefix stripped, nibble paths, sorted), and the induction over blocks. *)
 From Coq Require Import Permutation.
-From NG Require Import Common.Tactics StateRoot.Model StateRoot.Order StateRoot.Proofs.
+From NG Require Import Common.Tactics StateRoot.Model StateRoot.Order StateRoot.Proofs StateRoot.Concrete.
 Open Scope N_scope.
 
 (* the batch does not depend on the iteration order of the change map *)
@@ -37,88 +37,167 @@ Theorem C03_change_map_is_the_block : forall (ws : list change) (s : smap),
 Proof. exact map_apply_cm. Qed.
 Print Assumptions C03_change_map_is_the_block.
 
+(* ================= over the ABSTRACT trie interface =================
+   [iface_base empty content apply_batch tinv ok] (StateRoot/Proofs.v) bundles: the invariant [tinv] holds of the empty
+   trie, whose content is empty, and PutBatch of a strictly sorted batch of admissible changes ([ok]) on a trie
+   satisfying [tinv] keeps [tinv] and changes the content as the batch says.  [trie_run] is a history of blocks: per
+   block the admissible writes in execution order and ANY enumeration of the resulting change map. *)
+
 (* root_commits: by induction over blocks, the trie after any history holds exactly contract storage *)
 Theorem C03_root_commits :
-  forall (trie : Type) (empty_trie : trie) (content : trie -> smap) (apply_batch : trie -> list change -> trie),
-  content empty_trie = [] ->
-  (forall t b, ssorted b -> ssorted (content t) -> content (apply_batch t (map nib_change b)) = map_apply b (content t)) ->
-  forall bs t, trie_run trie apply_batch empty_trie bs t -> content t = storage_after [] bs.
-Proof. exact root_commits. Qed.
+  forall (trie : Type) (empty_trie : trie) (content : trie -> smap) (apply_batch : trie -> list change -> trie)
+         (tinv : trie -> Prop) (ok : change -> Prop),
+  iface_base empty_trie content apply_batch tinv ok ->
+  forall bs t, trie_run trie apply_batch ok empty_trie bs t -> content t = storage_after [] bs.
+Proof. exact (@abs_root_commits). Qed.
 Print Assumptions C03_root_commits.
 
 (* hence the root of a height is a function of the contract storage of that height alone *)
 Theorem C03_root_function_of_storage :
-  forall (trie : Type) (empty_trie : trie) (content : trie -> smap) (apply_batch : trie -> list change -> trie)
-         (root : trie -> N),
-  content empty_trie = [] ->
-  (forall t b, ssorted b -> ssorted (content t) -> content (apply_batch t (map nib_change b)) = map_apply b (content t)) ->
-  (forall t1 t2, reachable trie empty_trie apply_batch t1 -> reachable trie empty_trie apply_batch t2 ->
+  forall (trie hashT : Type) (empty_trie : trie) (content : trie -> smap) (apply_batch : trie -> list change -> trie)
+         (root : trie -> hashT) (tinv : trie -> Prop) (ok : change -> Prop),
+  iface_base empty_trie content apply_batch tinv ok ->
+  (forall t1 t2, reachable trie empty_trie apply_batch ok t1 -> reachable trie empty_trie apply_batch ok t2 ->
                  content t1 = content t2 -> root t1 = root t2) ->
   forall bs1 bs2 t1 t2,
-    trie_run trie apply_batch empty_trie bs1 t1 -> trie_run trie apply_batch empty_trie bs2 t2 ->
+    trie_run trie apply_batch ok empty_trie bs1 t1 -> trie_run trie apply_batch ok empty_trie bs2 t2 ->
     storage_after [] bs1 = storage_after [] bs2 -> root t1 = root t2.
-Proof. exact root_function_of_storage. Qed.
+Proof. exact (@abs_root_function_of_storage). Qed.
 Print Assumptions C03_root_function_of_storage.
 
-(* reading a key or an ordered range (either direction, any prefix and start point) at root_h = the same query on
-   the storage of height h *)
+(* reading a key or an ordered range (either direction, any prefix and start point) on the content at root_h = the same
+   query on the storage of height h *)
 Theorem C03_historic_read_eq_live :
-  forall (trie : Type) (empty_trie : trie) (content : trie -> smap) (apply_batch : trie -> list change -> trie),
-  content empty_trie = [] ->
-  (forall t b, ssorted b -> ssorted (content t) -> content (apply_batch t (map nib_change b)) = map_apply b (content t)) ->
-  forall bs t, trie_run trie apply_batch empty_trie bs t ->
+  forall (trie : Type) (empty_trie : trie) (content : trie -> smap) (apply_batch : trie -> list change -> trie)
+         (tinv : trie -> Prop) (ok : change -> Prop),
+  iface_base empty_trie content apply_batch tinv ok ->
+  forall bs t, trie_run trie apply_batch ok empty_trie bs t ->
     (forall k, sm_get k (content t) = sm_get k (storage_after [] bs)) /\
     (forall prefix start bw, sm_range prefix start bw (content t) = sm_range prefix start bw (storage_after [] bs)).
-Proof. exact historic_read_eq_live. Qed.
+Proof. exact (@abs_historic_read_eq_live). Qed.
 Print Assumptions C03_historic_read_eq_live.
 
-(* a proof produced at root_h for a stored key verifies to the stored value *)
-Theorem C03_proof_complete_at_height :
-  forall (trie : Type) (empty_trie : trie) (content : trie -> smap) (apply_batch : trie -> list change -> trie)
-         (root : trie -> N) (get_proof : trie -> bytes -> option (list bytes))
-         (verify_proof : N -> bytes -> list bytes -> option val),
-  content empty_trie = [] ->
-  (forall t b, ssorted b -> ssorted (content t) -> content (apply_batch t (map nib_change b)) = map_apply b (content t)) ->
-  (forall t k v, reachable trie empty_trie apply_batch t -> sm_get k (content t) = Some v ->
-                 exists p, get_proof t k = Some p /\ verify_proof (root t) k p = Some v) ->
-  forall bs t k v, trie_run trie apply_batch empty_trie bs t -> sm_get k (storage_after [] bs) = Some v ->
-    exists p, get_proof t k = Some p /\ verify_proof (root t) k p = Some v.
-Proof. exact proof_at_height_complete. Qed.
-Print Assumptions C03_proof_complete_at_height.
-
-(* no proof verifies against root_h for an absent key or to another value, unless a hash collision is exhibited *)
-Theorem C03_proof_sound_at_height :
-  forall (trie : Type) (empty_trie : trie) (content : trie -> smap) (apply_batch : trie -> list change -> trie)
-         (root : trie -> N) (verify_proof : N -> bytes -> list bytes -> option val) (Collision : Prop),
-  content empty_trie = [] ->
-  (forall t b, ssorted b -> ssorted (content t) -> content (apply_batch t (map nib_change b)) = map_apply b (content t)) ->
-  (forall t k p v, reachable trie empty_trie apply_batch t -> verify_proof (root t) k p = Some v ->
-                   sm_get k (content t) = Some v \/ Collision) ->
-  forall bs t k p v, trie_run trie apply_batch empty_trie bs t ->
-    sm_get k (storage_after [] bs) <> Some v -> verify_proof (root t) k p = Some v -> Collision.
-Proof. exact no_proof_for_absent_or_other. Qed.
-Print Assumptions C03_proof_sound_at_height.
-
-(* range-searching at root_h (TrieStore.Seek: any prefix, any start point, either direction) = the same range query on
-   the contract storage of height h.  Premise [seek_spec] is C10's C10_seek_spec; the range is the one C09 proves for
-   every store of the node ([C03_range_is_the_store_range]: forwards prefix++start <= key, backwards key <= prefix++start
-   or key extends prefix++start), so the live node has exactly one answer for every range and the trie must give it *)
+(* range-searching at root_h (TrieStore.Seek) = the same range query on the contract storage of height h *)
 Theorem C03_seek_at_height :
-  forall (trie : Type) (empty_trie : trie) (content : trie -> smap) (apply_batch : trie -> list change -> trie),
-  content empty_trie = [] ->
-  (forall t b, ssorted b -> ssorted (content t) -> content (apply_batch t (map nib_change b)) = map_apply b (content t)) ->
+  forall (trie : Type) (empty_trie : trie) (content : trie -> smap) (apply_batch : trie -> list change -> trie)
+         (tinv : trie -> Prop) (ok : change -> Prop),
+  iface_base empty_trie content apply_batch tinv ok ->
   forall seek : trie -> bytes -> bytes -> bool -> smap,
-  (forall t P S bw, reachable trie empty_trie apply_batch t -> seek t P S bw = sm_range P S bw (content t)) ->
-  forall bs t P S bw, trie_run trie apply_batch empty_trie bs t ->
+  (forall t P S bw, reachable trie empty_trie apply_batch ok t -> seek t P S bw = sm_range P S bw (content t)) ->
+  forall bs t P S bw, trie_run trie apply_batch ok empty_trie bs t ->
     seek t P S bw = sm_range P S bw (storage_after [] bs).
-Proof. exact seek_at_height. Qed.
+Proof. exact (@abs_seek_at_height). Qed.
 Print Assumptions C03_seek_at_height.
 
+(* the range of the specification is the one C09 proves for every store of the node *)
 Theorem C03_range_is_the_store_range : forall P S bw k,
   in_range P S bw k =
   is_prefix P k && (if bw then ble k (P ++ S) || is_prefix (P ++ S) k else ble (P ++ S) k).
 Proof. exact in_range_c09_form. Qed.
 Print Assumptions C03_range_is_the_store_range.
+
+(* a proof produced at root_h for a stored key verifies to the stored value (or a collision is exhibited) *)
+Theorem C03_proof_complete_at_height :
+  forall (trie hashT : Type) (empty_trie : trie) (content : trie -> smap) (apply_batch : trie -> list change -> trie)
+         (root : trie -> hashT) (tinv : trie -> Prop) (ok : change -> Prop),
+  iface_base empty_trie content apply_batch tinv ok ->
+  forall (get_proof : trie -> bytes -> option (list bytes)) (verify_proof : hashT -> bytes -> list bytes -> option val)
+         (Collision : Prop),
+  (forall t k v, reachable trie empty_trie apply_batch ok t -> sm_get k (content t) = Some v ->
+                 exists p, get_proof t k = Some p /\ (verify_proof (root t) k p = Some v \/ Collision)) ->
+  forall bs t k v, trie_run trie apply_batch ok empty_trie bs t -> sm_get k (storage_after [] bs) = Some v ->
+    exists p, get_proof t k = Some p /\ (verify_proof (root t) k p = Some v \/ Collision).
+Proof. exact (@abs_proof_complete). Qed.
+Print Assumptions C03_proof_complete_at_height.
+
+(* no proof verifies against root_h for an absent key or to another value, unless a collision is exhibited *)
+Theorem C03_proof_sound_at_height :
+  forall (trie hashT : Type) (empty_trie : trie) (content : trie -> smap) (apply_batch : trie -> list change -> trie)
+         (root : trie -> hashT) (tinv : trie -> Prop) (ok : change -> Prop),
+  iface_base empty_trie content apply_batch tinv ok ->
+  forall (verify_proof : hashT -> bytes -> list bytes -> option val) (Collision : Prop),
+  (forall t k p v, reachable trie empty_trie apply_batch ok t -> verify_proof (root t) k p = Some v ->
+                   sm_get k (content t) = Some v \/ Collision) ->
+  forall bs t k p v, trie_run trie apply_batch ok empty_trie bs t ->
+    sm_get k (storage_after [] bs) <> Some v -> verify_proof (root t) k p = Some v -> Collision.
+Proof. exact (@abs_proof_sound). Qed.
+Print Assumptions C03_proof_sound_at_height.
+
+(* ================= over the CONCRETE trie of C10 (coq/Trie/Model.v), no premises =================
+   StateRoot/Concrete.v instantiates the interface with trie := Trie.Model.node, empty := Empty,
+   content := the sorted listing [entries] with paths converted back to byte keys, apply_batch := put_batch,
+   root := Trie.Model.root H, seek := Trie.Model.seek, get_proof / verify_proof of the model, for ANY hash function H
+   with 32-byte digests, and proves every interface premise from the C10 theorems (put_batch_spec, NF_unique,
+   entries_content, entries_sorted, seek_spec, proof_complete, proof_sound, proof_sound_empty).
+   [crun H-independent]: a history of blocks of admissible writes ([cok]: the key is a byte string of at most 68 bytes,
+   a value has at most 65539 bytes — what Trie.Put accepts), each block applied through MapToMPTBatch ([to_batch] of any
+   enumeration of the block's change map) and PutBatch.  [nk] = toNibbles. *)
+
+Theorem C03_root_commits_concrete : forall bs t,
+  crun Trie.Model.Empty bs t -> ccontent t = storage_after [] bs.
+Proof. exact root_commits_concrete. Qed.
+Print Assumptions C03_root_commits_concrete.
+
+Theorem C03_root_function_of_storage_concrete : forall (H : Trie.Model.bytes -> Trie.Model.bytes) bs1 bs2 t1 t2,
+  crun Trie.Model.Empty bs1 t1 -> crun Trie.Model.Empty bs2 t2 ->
+  storage_after [] bs1 = storage_after [] bs2 -> croot H t1 = croot H t2.
+Proof. exact root_function_of_storage_concrete. Qed.
+Print Assumptions C03_root_function_of_storage_concrete.
+
+Theorem C03_historic_read_eq_live_concrete : forall bs t,
+  crun Trie.Model.Empty bs t ->
+  (forall k, sm_get k (ccontent t) = sm_get k (storage_after [] bs)) /\
+  (forall prefix start bw, sm_range prefix start bw (ccontent t) = sm_range prefix start bw (storage_after [] bs)).
+Proof. exact historic_read_eq_live_concrete. Qed.
+Print Assumptions C03_historic_read_eq_live_concrete.
+
+(* Trie.Get at root_h of a byte key = the value contract storage held at height h *)
+Theorem C03_get_at_height_concrete : forall bs t k,
+  crun Trie.Model.Empty bs t -> bok k -> Trie.Model.get t (nk k) = sm_get k (storage_after [] bs).
+Proof. exact get_at_height_concrete. Qed.
+Print Assumptions C03_get_at_height_concrete.
+
+(* TrieStore.Seek at root_h, any prefix / start point / direction = the range query on the storage of height h *)
+Theorem C03_seek_at_height_concrete : forall bs t P S bw,
+  crun Trie.Model.Empty bs t -> cseek t P S bw = sm_range P S bw (storage_after [] bs).
+Proof. exact seek_at_height_concrete. Qed.
+Print Assumptions C03_seek_at_height_concrete.
+
+Theorem C03_proof_complete_at_height_concrete :
+  forall (H : Trie.Model.bytes -> Trie.Model.bytes), (forall x, length (H x) = 32%nat) ->
+  forall bs t k v, crun Trie.Model.Empty bs t -> sm_get k (storage_after [] bs) = Some v ->
+    exists p, cget_proof H t k = Some p /\ (cverify H (croot H t) k p = Some v \/ ccollision H).
+Proof. exact proof_complete_at_height_concrete. Qed.
+Print Assumptions C03_proof_complete_at_height_concrete.
+
+(* whatever verifies against root_h is what contract storage held at height h — or a collision of H o H (or, under
+   the all-zero root of the empty trie, a preimage of that root) is exhibited *)
+Theorem C03_proof_sound_at_height_concrete :
+  forall (H : Trie.Model.bytes -> Trie.Model.bytes), (forall x, length (H x) = 32%nat) ->
+  forall bs t k p v, crun Trie.Model.Empty bs t -> cverify H (croot H t) k p = Some v ->
+    sm_get k (storage_after [] bs) = Some v \/ ccollision H.
+Proof. exact proof_sound_at_height_concrete. Qed.
+Print Assumptions C03_proof_sound_at_height_concrete.
+
+(* the abstract premises are inhabited by the concrete trie: this is the discharge of the interface *)
+Theorem C03_interface_discharged :
+  iface_base Trie.Model.Empty ccontent capply cinv cok /\
+  (forall (H : Trie.Model.bytes -> Trie.Model.bytes) t1 t2, creachable t1 -> creachable t2 -> ccontent t1 = ccontent t2 -> croot H t1 = croot H t2) /\
+  (forall t P S bw, creachable t -> cseek t P S bw = sm_range P S bw (ccontent t)) /\
+  (forall (H : Trie.Model.bytes -> Trie.Model.bytes), (forall x, length (H x) = 32%nat) ->
+     (forall t k v, creachable t -> sm_get k (ccontent t) = Some v ->
+        exists p, cget_proof H t k = Some p /\ (cverify H (croot H t) k p = Some v \/ ccollision H)) /\
+     (forall t k p v, creachable t -> cverify H (croot H t) k p = Some v -> sm_get k (ccontent t) = Some v \/ ccollision H)).
+Proof. exact interface_discharged. Qed.
+Print Assumptions C03_interface_discharged.
+
+(* non-vacuity of the concrete statements: two blocks through the concrete trie *)
+Example C03_concrete_example :
+  crun Trie.Model.Empty [cex_ws1; cex_ws2] cex_t /\
+  ccontent cex_t = [([1;0;0;0;97;98], [3]); ([2;0;0;0], [])] /\
+  storage_after [] [cex_ws1; cex_ws2] = [([1;0;0;0;97;98], [3]); ([2;0;0;0], [])] /\
+  Trie.Model.NFb cex_t = true.
+Proof. split; [exact cex_run|exact cex_values]. Qed.
 
 (* non-vacuity: the interface hypotheses are consistent (the trie whose state is its content), and a concrete block
    with an overwrite, a delete-and-recreate and a delete of an absent key *)
